@@ -991,7 +991,7 @@ func (g *c31Gen) request(t c31Target) c31Req {
 
 func c31Record(t *testing.T) {
 	rng := vRand()
-	trees, perTree := 3, 45
+	trees, perTree := 2, 40
 	maxSize := int64(1 << 20)
 	if !vQuick() {
 		trees, perTree = 12, 80
